@@ -19,6 +19,7 @@ import (
 	"strconv"
 	"strings"
 	"sync"
+	"syscall"
 	"time"
 )
 
@@ -211,6 +212,7 @@ type worker struct {
 	mu       sync.Mutex
 	distinct map[uint64]struct{}
 	rerun    map[string]bool
+	hangs    int
 }
 
 type sample struct {
@@ -294,6 +296,11 @@ func (s *Spec) exploreSubtree(w *worker, prefix []int, deadline time.Time) shard
 	res := shardResult{Prefix: prefix, Outcomes: map[string]int{}}
 	cur := append([]int{}, prefix...)
 	for {
+		if w.hangs >= 3 {
+			// executions that hang cost a whole horizon each: what was seen is reported, the rest of this worker's share is cut
+			res.Cut = true
+			return res
+		}
 		if !deadline.IsZero() && time.Now().After(deadline) {
 			res.Cut = true
 			return res
@@ -302,6 +309,9 @@ func (s *Spec) exploreSubtree(w *worker, prefix []int, deadline time.Time) shard
 		if strings.HasPrefix(st, "nondet:") {
 			res.Nondet = fmt.Sprintf("%s (vector %v)", st[7:], cur)
 			return res
+		}
+		if st == "hang" {
+			w.hangs++
 		}
 		res.Execs++
 		if x.evals == 0 {
@@ -328,7 +338,7 @@ func (s *Spec) exploreSubtree(w *worker, prefix []int, deadline time.Time) shard
 				reruns = 4
 			}
 			if st == "hang" {
-				reruns = 1
+				reruns = 0 // a hang is not re-run: it costs a whole horizon and leaves a stuck goroutine behind
 			}
 			counts := map[string]int{}
 			fresh := false
@@ -366,6 +376,11 @@ func (s *Spec) exploreSubtree(w *worker, prefix []int, deadline time.Time) shard
 			return res
 		}
 		cur = append(append([]int{}, x.Choices[:i]...), x.Choices[i]+1)
+		if w.hangs >= 3 {
+			// executions that hang cost a whole horizon each: what was seen is reported, the rest of this worker's share is cut
+			res.Cut = true
+			return res
+		}
 	}
 }
 
@@ -397,6 +412,27 @@ const resultMarker = "@@MC "
 
 // WorkerMain is the loop of a worker process: prefixes on stdin, results on stdout.
 func (s *Spec) WorkerMain() int {
+	// a worker must not outlive its coordinator (e.g. when the whole check is killed by a timeout)
+	parent := os.Getppid()
+	go func() {
+		for {
+			time.Sleep(time.Second)
+			if os.Getppid() != parent {
+				os.Exit(4)
+			}
+		}
+	}()
+	// the job and result pipes move to private close-on-exec descriptors: code under test that is handed descriptors
+	// 0/1/2 (or writes to them by mistake) must not be able to corrupt the explorer's own protocol
+	jobFd, _ := syscall.Dup(0)
+	resFd, _ := syscall.Dup(1)
+	syscall.CloseOnExec(jobFd)
+	syscall.CloseOnExec(resFd)
+	if nul, err := syscall.Open("/dev/null", syscall.O_RDWR, 0); err == nil {
+		syscall.Dup3(nul, 0, 0)
+		syscall.Close(nul)
+	}
+	syscall.Dup3(2, 1, 0)
 	if s.Init != nil {
 		if err := s.Init(); err != nil {
 			fmt.Fprintf(os.Stderr, "HARNESS-ERROR init: %v\n", err)
@@ -404,8 +440,8 @@ func (s *Spec) WorkerMain() int {
 		}
 	}
 	w := &worker{distinct: map[uint64]struct{}{}, rerun: map[string]bool{}}
-	out := bufio.NewWriter(os.Stdout)
-	in := bufio.NewScanner(os.Stdin)
+	out := bufio.NewWriter(os.NewFile(uintptr(resFd), "results"))
+	in := bufio.NewScanner(os.NewFile(uintptr(jobFd), "jobs"))
 	in.Buffer(make([]byte, 1<<20), 1<<20)
 	emit := func(r shardResult) {
 		b, _ := json.Marshal(r)
